@@ -409,8 +409,60 @@ def o193(ctx):
                     "(the point used by the forward search)", tails[0], m)
 
 
+def o195(ctx):
+    """a chain connected on both ends: add_chain_suffix first renumbers the order of the finished chain (it continues the chain it is appended
+    to); the largest order number handed to add_chain_prefix (class_max[0]) must be read after that step, not before"""
+    src = lambda n: " ".join(ast.unparse(n).split())
+    found = 0
+    for q, m, fn in ctx.prog.functions():
+        if not q.startswith("ribana.") or q.split(".")[-1] in ("add_chain_prefix", "add_chain_suffix"):
+            continue
+        own = [n for n in ast.walk(fn)]
+        pre = [c for c in own if isinstance(c, ast.Call) and src(c.func).split(".")[-1] == "add_chain_prefix" and kwarg(c, "class_max") is not None]
+        suf = [c for c in own if isinstance(c, ast.Call) and src(c.func).split(".")[-1] == "add_chain_suffix"]
+        if not pre:
+            continue
+        if len(pre) != 1 or len(suf) != 1:
+            raise Unsupported(f"{q}: suffix / prefix connection calls not recognised", fn)
+        found += 1
+        ctx.touched(q)
+
+        def defs(name):
+            return [a for a in own if isinstance(a, ast.Assign) and any(isinstance(t, ast.Name) and t.id == name for t in a.targets)]
+
+        cm = kwarg(pre[0], "class_max")
+        tuples = []
+        todo, seen = [cm], set()
+        while todo:
+            e = todo.pop()
+            if isinstance(e, ast.Tuple) and len(e.elts) == 2:
+                tuples.append(e)
+            elif isinstance(e, ast.IfExp):
+                todo += [e.body, e.orelse]
+            elif isinstance(e, ast.Name) and e.id not in seen:
+                seen.add(e.id)
+                todo += [a.value for a in defs(e.id)]
+        if not tuples:
+            raise Unsupported(f"{q}: value of class_max not recognised", pre[0])
+        for tp in tuples:
+            first = tp.elts[0]
+            srcs = [first] if not isinstance(first, ast.Name) else [a for a in defs(first.id)]
+            reads = [x for x in srcs if any(isinstance(c, ast.Call) and src(c.func).split(".")[-1] in ("max", "amax", "nanmax") for c in ast.walk(x))]
+            ctx.count(1, {"function": q, "largest order read at line": [x.lineno for x in reads], "add_chain_suffix at line": suf[0].lineno})
+            if not reads:
+                raise Unsupported(f"{q}: the largest order number handed to add_chain_prefix is not a max(...) of the chain's order column", tp)
+            if any(x.lineno < suf[0].lineno for x in reads):
+                bad = [x for x in reads if x.lineno < suf[0].lineno][0]
+                ctx.finding(q, bad, "the largest order number of the finished chain is read before add_chain_suffix has renumbered the chain: with "
+                            "a connection on both ends the chain put behind it is shifted by the stale value and order numbers repeat "
+                            "(1, 2, 3, 3)", bad, m)
+    if not found:
+        raise Unsupported("no call of add_chain_prefix with class_max found in ribana")
+
+
 def _obligations():
     return [
+        Obligation("O19.5", "two-sided connection: the order offset for add_chain_prefix is read after add_chain_suffix renumbered the chain", o195, floor=1),
         Obligation("O19.1", "get_nn_dist: radius = max_distance, sorted, active filter, strict > min_distance, same masks, element 0", o191, floor=5),
         Obligation("O19.2", "add_chain_suffix: order offset keyed by the class the appended chain receives (both paths)", o192, floor=6),
         Obligation("O19.4", "add_chain_prefix: the link distance is recorded on every merging path", o194, floor=4),
